@@ -3,12 +3,14 @@
 Model: Model/Ownership.v interpreting Gen/GenOwnership.v (the except clauses of open_las, the close methods, the lazily created
 point source, LasData._write_to's closefd, the stream operations of header reading; all regenerated from the source).
 Correspondence: the complete matrix modes x closefd x source kinds x outcomes x files (+-points, +-EVLRs) x bodies x ways of
-letting go, LasData.write and laspy.read matrices, plus random multi-session histories; after every event the result class,
+letting go, LasData.write and laspy.read matrices, contents that fail AFTER a successful open (point area cut inside a record,
+EVLRs that cannot be decoded: at opening or in read() depending on where they are loaded), streams handed over at a position
+other than 0 (the LAS content starts where the stream stands), plus random multi-session histories; after every event the result class,
 `stream.closed`, the position of the CALLER's stream object (read sessions) and the kind of the lazily created point source are
 compared with the extracted model.
 Search: the property stated on the implementation only (no model): whenever laspy lets go of a stream that was open when it got
 it, `stream.closed == closefd`; LasData.write leaves it open; right after a successful open for reading the caller's stream
-stands at offset_to_point_data and the first read_points returns the file's first records; a stream left open stays open and
+stands offset_to_point_data bytes after where it stood and the first read_points returns the file's first records; a stream left open stays open and
 usable after the handle is dropped and the garbage collector has run."""
 import gc
 import io
@@ -25,12 +27,17 @@ ASSUMPTIONS = [
     "uncompressed LAS (no LAZ backend is installed); one laspy handle per stream at a time; no double close",
     "the stream's own methods do not fail (the non-seekable double refuses seek/tell, nothing else)",
     "positions are modelled and compared for read sessions only; write/append sessions are compared on closed/open and result class",
+    "a LAS content that starts at a position other than 0 of a SEEKABLE stream is generated without EVLRs only: LasHeader.read_evlrs and "
+    "the point reader's seek use the header's absolute offsets (they would look at other bytes); non-seekable streams take every file there",
+    "late failures are generated for read sessions and laspy.read (append mode reads the same header but is compared on open/closed only)",
     "mode 'w' on a non-seekable destination is refused by an assertion placed before the try block: that exit is outside the "
     "failures the property lists (invalid content, unusable header) and is stated separately (C18_w_nonseekable_untouched)",
 ]
 
 SCRATCH = f"/var/tmp/c18_{os.getpid()}"
 OUTCOMES = ["ok", "empty", "badsig", "trunc", "badvlr", "incompat"]
+LATE = ["cutrec", "badevlr"]      # the header is fine, reading fails later (model outcome: ok, with the facts of the content)
+PRE = bytes((i * 37 + 11) % 251 for i in range(4096))      # what a stream holds before the LAS content, when something does
 KINDS = ["bytesio", "file", "rawfile", "double", "double_ns"]
 FILES = [("1.2", 3, 0, 0), ("1.2", 1, 3, 0), ("1.4", 6, 0, 1), ("1.4", 7, 3, 2), ("1.4", 6, 2, 0), ("1.1", 0, 1, 0)]
 
@@ -133,8 +140,17 @@ def base_file(spec):
     return raw
 
 
-def finfo_of(raw):
-    """the facts the model's positions depend on, parsed from the bytes (not through laspy)"""
+def applicable(spec, outcome):
+    if outcome == "cutrec":
+        return spec[2] > 0 and spec[3] == 0
+    if outcome == "badevlr":
+        return spec[3] > 0
+    return True
+
+
+def finfo_of(raw, base=0):
+    """the facts the model's positions depend on, parsed from the bytes (not through laspy); base = where the content
+    starts in the stream"""
     minor = raw[25]
     hsize = struct.unpack_from("<H", raw, 94)[0]
     offset = struct.unpack_from("<I", raw, 96)[0]
@@ -145,15 +161,20 @@ def finfo_of(raw):
         ev_start = struct.unpack_from("<Q", raw, 235)[0]
         nev = struct.unpack_from("<I", raw, 243)[0]
         count = struct.unpack_from("<Q", raw, 247)[0]
+    bad = 0
+    if nev and ev_start + 18 <= len(raw):
+        uid = raw[ev_start + 2:ev_start + 18].split(b"\0")[0]
+        bad = int(any(c >= 0x80 for c in uid))
     return {"offset": offset, "count": count, "psize": psize, "minor": minor, "nevlrs": nev, "evlr_start": ev_start,
-            "evlr_bytes": (len(raw) - ev_start) if nev else 0, "size": len(raw), "hsize": hsize}
+            "evlr_bytes": max(0, len(raw) - ev_start) if nev else 0, "size": base + len(raw), "hsize": hsize, "evlr_bad": bad}
 
 
 def finfo_tok(fi):
-    return ",".join(str(fi[k]) for k in ("offset", "count", "psize", "minor", "nevlrs", "evlr_start", "evlr_bytes", "size"))
+    return ",".join(str(fi[k]) for k in ("offset", "count", "psize", "minor", "nevlrs", "evlr_start", "evlr_bytes", "size", "evlr_bad"))
 
 
-ZERO_FI = {"offset": 0, "count": 0, "psize": 0, "minor": 0, "nevlrs": 0, "evlr_start": 0, "evlr_bytes": 0, "size": 0, "hsize": 0}
+ZERO_FI = {"offset": 0, "count": 0, "psize": 0, "minor": 0, "nevlrs": 0, "evlr_start": 0, "evlr_bytes": 0, "size": 0, "hsize": 0,
+           "evlr_bad": 0}
 
 
 def content_for(spec, outcome, variant=0):
@@ -168,6 +189,15 @@ def content_for(spec, outcome, variant=0):
     if outcome == "trunc":
         return raw[:[226, 100, 5, 4][variant % 4]]
     fi = finfo_of(raw)
+    if outcome == "cutrec":          # the point area ends inside a record (nothing after it)
+        k = variant % fi["count"]
+        j = 1 + (variant // 7) % (fi["psize"] - 1)
+        return raw[:fi["offset"] + k * fi["psize"] + j]
+    if outcome == "badevlr":         # the user id of the first EVLR is not ASCII
+        b = bytearray(raw)
+        at = fi["evlr_start"] + 2
+        b[at:at + 4] = [b"\xff\xfe\xfd\xfc", b"\x80abc", b"\xc3\x28zz", b"\xf8\x88\x80\x80"][variant % 4]
+        return bytes(b)
     if outcome == "badvlr":
         b = bytearray(raw)
         at = fi["hsize"] + 2          # user_id of the first VLR
@@ -249,6 +279,17 @@ def las_data(spec, outcome, variant=0):
 _SEQ = [0]
 
 
+def make_stream_at(kind, data, writable, pos):
+    """a stream holding `data`, standing at `pos`"""
+    st = make_stream(kind, data, writable)
+    if pos:
+        if kind == "double_ns":
+            st._b.seek(pos)          # the caller has consumed what comes first
+        else:
+            st.seek(pos)
+    return st
+
+
 def make_stream(kind, data, writable):
     if kind == "bytesio":
         return io.BytesIO(data)
@@ -269,14 +310,14 @@ def seekable_kind(kind):
     return kind != "double_ns"
 
 
-def set_content(stream, data):
+def set_content(stream, data, pos=0):
     """the caller's own preparation of a seekable, writable stream before the next session"""
     stream.seek(0)
     stream.truncate() if hasattr(stream, "truncate") else stream._b.truncate()
     if isinstance(stream, StreamDouble):
         stream._b.seek(0)
     stream.write(data)
-    stream.seek(0)
+    stream.seek(pos)
 
 
 def pos_of(stream, kind):
@@ -301,11 +342,16 @@ def pos_of(stream, kind):
 #  ["D", outcome, variant]            LasData.write(stream)
 #  ["L", closefd, outcome, variant]   laspy.read(stream, closefd=)
 #  ["N"]                 the caller refills the (seekable, writable) stream for the next session and rewinds it
-def ev_tok(ev, fi):
+# scenario key "pre": p > 0 = the stream holds p other bytes first and stands at p when laspy gets it (and after every N)
+def model_outcome(o):
+    return "ok" if o in LATE else o
+
+
+def ev_tok(ev, fi, pre=0):
     k = ev[0]
     tf = lambda b: "T" if b else "F"
     if k == "O":
-        return f"O{ev[1]}{tf(ev[2])}{tf(ev[3])}:{ev[4]}:{finfo_tok(fi)}"
+        return f"O{ev[1]}{tf(ev[2])}{tf(ev[3])}:{model_outcome(ev[4])}:{finfo_tok(fi)}"
     if k == "P":
         return f"P{ev[1]}"
     if k == "S":
@@ -323,9 +369,9 @@ def ev_tok(ev, fi):
     if k == "D":
         return "D" + ev[1]
     if k == "L":
-        return f"L{tf(ev[1])}:{ev[2]}:{finfo_tok(fi)}"
+        return f"L{tf(ev[1])}:{model_outcome(ev[2])}:{finfo_tok(fi)}"
     if k == "N":
-        return "Z"
+        return f"Z{pre}"
     raise ValueError(ev)
 
 
@@ -360,8 +406,9 @@ def run_impl(scen):
     first = events[0]
     # initial content: what the first session needs
     init = initial_content(spec, events)
+    pre = scen.get("pre", 0)
     writable = scen.get("writable", True) or first[0] in ("D",) or (first[0] == "O" and first[1] in "wa")
-    stream = make_stream(kind, init, writable)
+    stream = make_stream_at(kind, PRE[:pre] + init, writable, pre)
     handle = None
     sess = None          # dict(mode, closefd)
     content = init
@@ -382,7 +429,7 @@ def run_impl(scen):
         if k == "N":
             content = content_for_next(spec, events, i)
             try:
-                set_content(stream, content)
+                set_content(stream, PRE[:pre] + content, pre)
                 pos_valid = True
             except Exception as e:  # noqa
                 ex = e
@@ -393,15 +440,17 @@ def run_impl(scen):
                 hdr, kw = writer_header(spec, outcome, variant)
                 kw["header"] = hdr
             else:
-                if outcome == "ok" and was_open:
-                    fi = finfo_of(content)
+                if outcome in ["ok"] + LATE and was_open:
+                    fi = finfo_of(content, pre)
                 if mode == "r":
                     kw["read_evlrs"] = re
+            base = pos_of(stream, kind) if (pos_valid and was_open) else None
             try:
                 handle = laspy.open(stream, mode=mode, closefd=cf, **kw)
                 sess = {"mode": mode, "closefd": cf, "first_read": mode == "r" and pos_valid, "re": re}
                 if mode == "r":
-                    info["offset_expected"] = fi["offset"]
+                    info["offset_expected"] = (base or 0) + fi["offset"]
+                    info["base"] = base
                     info["pos_checked"] = pos_valid
                 else:
                     pos_valid = False
@@ -435,6 +484,8 @@ def run_impl(scen):
                     handle.write_points(pts) if sess["mode"] == "w" else handle.append_points(pts)
             except Exception as e:  # noqa
                 ex = e
+                if k in ("P", "A"):
+                    pos_valid = False      # a read that failed leaves the stream wherever the failure happened
             sess["first_read"] = False
         elif k in ("X", "B", "Wbad", "Sbad"):
             try:
@@ -472,8 +523,8 @@ def run_impl(scen):
                          "closed": stream.closed, "at": i})
         elif k == "L":
             cf, outcome = ev[1], ev[2]
-            if outcome == "ok" and was_open:
-                fi = finfo_of(content)
+            if outcome in ["ok"] + LATE and was_open:
+                fi = finfo_of(content, pre)
             try:
                 prepared = pos_valid
                 las = laspy.read(stream, closefd=cf)
@@ -585,6 +636,34 @@ def matrix(ctx):
                 for outcome in OUTCOMES:
                     v += 1
                     scen.append({"src": kind, "file": list(spec), "writable": False, "events": [["L", cf, outcome, v]]})
+            # ---- failures after a successful open (read sessions, laspy.read), and contents that do not start at byte 0
+            for cf in (True, False):
+                for outcome in LATE:
+                    if not applicable(spec, outcome):
+                        continue
+                    for re in (True, False):
+                        for body in ([], [["A"]], [["P", -1]], [["P", 1], ["A"]], [["Q"], ["A"]]):
+                            for end in (["X"], ["C"], ["B", "o"]):
+                                v += 1
+                                if v % 2 and kind in ("file", "rawfile") and not ctx.thorough():
+                                    continue
+                                scen.append({"src": kind, "file": list(spec), "writable": False,
+                                             "events": [["O", "r", cf, re, outcome, v]] + body + [end]})
+                    v += 1
+                    scen.append({"src": kind, "file": list(spec), "writable": False, "events": [["L", cf, outcome, v]]})
+                if spec[3] == 0 or not seekable_kind(kind):
+                    for pre in (1, 64, 300):
+                        for re in (True, False):
+                            scen.append({"src": kind, "file": list(spec), "writable": False, "pre": pre,
+                                         "events": [["O", "r", cf, re, "ok", 0], ["P", 2], ["A"], ["X"]]})
+                            scen.append({"src": kind, "file": list(spec), "writable": False, "pre": pre,
+                                         "events": [["O", "r", cf, re, "ok", 0], ["C"]]})
+                        scen.append({"src": kind, "file": list(spec), "writable": False, "pre": pre, "events": [["L", cf, "ok", 0]]})
+                        for outcome in OUTCOMES[1:] + LATE:
+                            if applicable(spec, outcome):
+                                v += 1
+                                scen.append({"src": kind, "file": list(spec), "writable": False, "pre": pre,
+                                             "events": [["L", cf, outcome, v]]})
             # ---- LasData.write
             if seekable_kind(kind):
                 for outcome in ("ok", "incompat", "badvlr"):
@@ -594,8 +673,12 @@ def matrix(ctx):
     return scen
 
 
-def expect_open_ok(mode, outcome, kind):
+def expect_open_ok(mode, outcome, kind, re=True):
     """whether the harness should append an exit after the open (it only decides the shape of the scenario)"""
+    if mode == "r" and outcome == "cutrec":
+        return True
+    if mode == "r" and outcome == "badevlr":
+        return not (re and seekable_kind(kind))
     if mode == "w":
         return seekable_kind(kind) and outcome not in ("badvlr", "incompat")
     if mode == "a" and not seekable_kind(kind):
@@ -606,6 +689,9 @@ def expect_open_ok(mode, outcome, kind):
 def random_history(rng):
     kind = rng.choice(["bytesio", "double", "file", "rawfile", "bytesio", "double", "double_ns"])
     spec = rng.choice(FILES)
+    pre = rng.choice([0, 0, 0, 1, 64, 227, 1000])      # > 0: read sessions and laspy.read only, on a content that starts at `pre`
+    if pre and seekable_kind(kind) and spec[3]:
+        spec = rng.choice([f for f in FILES if f[3] == 0])
     events = []
     closed = False
     nsess = rng.randrange(1, 5) if seekable_kind(kind) else 1
@@ -624,8 +710,12 @@ def random_history(rng):
             events.append(["N"])
         t = rng.random()
         v = rng.randrange(1000)
-        outcome = "ok" if rng.random() < 0.65 else rng.choice(OUTCOMES[1:])
-        if t < 0.12 and seekable_kind(kind):
+        outcome = "ok" if rng.random() < 0.65 else rng.choice(OUTCOMES[1:] + LATE + LATE)
+        if not applicable(spec, outcome):
+            outcome = "ok"
+        if t < 0.12 and seekable_kind(kind) and not pre:
+            if outcome in LATE:
+                outcome = "ok"
             events.append(["D", rng.choice(["ok", "ok", "incompat", "badvlr"]), v])
             continue
         if t < 0.27:
@@ -633,11 +723,13 @@ def random_history(rng):
             events.append(["L", cf, outcome, v])
             closed = cf
             continue
-        mode = rng.choice("rrrwa") if seekable_kind(kind) else rng.choice("rrra")
+        mode = "r" if pre else rng.choice("rrrwa") if seekable_kind(kind) else rng.choice("rrra")
+        if mode != "r" and outcome in LATE:
+            outcome = "ok"
         cf = rng.random() < 0.4
         re = rng.random() < 0.5
         events.append(["O", mode, cf, re, outcome, v])
-        if not expect_open_ok(mode, outcome, kind):
+        if not expect_open_ok(mode, outcome, kind, re):
             closed = cf and not (mode == "w" and not seekable_kind(kind))
             continue
         n = spec[2]
@@ -667,7 +759,10 @@ def random_history(rng):
         else:
             events.append(["Sbad"] if mode == "r" else ["Wbad"])
         closed = cf
-    return {"src": kind, "file": list(spec), "events": events}
+    out = {"src": kind, "file": list(spec), "events": events}
+    if pre:
+        out["pre"] = pre
+    return out
 
 
 _SCEN = None
@@ -700,8 +795,11 @@ def register(ctx, sc, steps):
     ctx.case((sc["src"], tuple(sc["file"]), repr(evs)), nontrivial=not trivial,
              sample={"src": sc["src"], "file": sc["file"], "events": evs, "closed_after_each": [s["closed"] for s in steps]})
     ctx.count("src:" + sc["src"])
+    ctx.count("content starts at byte " + ("0" if not sc.get("pre") else "> 0") + " of the stream")
     ctx.count("file:" + "/".join(map(str, sc["file"])))
     for e, s in zip(evs, steps):
+        if e[0] in ("P", "A") and s["res"] != "ok" and s["res"] != "ig":
+            ctx.count("read fails after a successful open")
         if e[0] == "O":
             ctx.count(f"open:{e[1]}:closefd={e[2]}:{e[4]}")
         elif e[0] in ("L", "D"):
@@ -718,7 +816,9 @@ def correspond(ctx):
         "signature, truncated header, undecodable VLR / unencodable header (non-Laspy exception), incompatible header}; read sessions: "
         "EVLR preloading on/off x bodies {none, read_points, read, .point_source, seek, combinations} x {with-exit, close(), user "
         "RuntimeError, user LaspyException, IndexError from seek}; write/append sessions x {.., LaspyException from write_points with "
-        "another format}; laspy.read x outcomes; LasData.write x outcomes], plus random histories of up to 4 sessions on one stream "
+        "another format}; laspy.read x outcomes; LasData.write x outcomes]; contents that fail after a successful open {point area cut "
+        "inside a record, undecodable EVLR user id} x preloading x bodies x ends and through laspy.read; LAS contents that start at byte "
+        "1/64/300 of the stream (read sessions, laspy.read x every outcome); plus random histories of up to 4 sessions on one stream "
         "(the caller refills and rewinds it in between; attempts on a stream laspy already closed). non-trivial = anything but 'open ok; "
         "exit'; distinct by (source kind, file, events)")
     scs = scenarios(ctx)
@@ -730,9 +830,9 @@ def correspond(ctx):
     for sc in scs:
         steps, gone, after, fis = run_impl(sc)
         impl.append((steps, gone, after))
-        _RUNS[repr((sc["src"], sc["file"], sc["events"], sc.get("writable", True)))] = (steps, gone, after)
-        toks = [ev_tok(ev, fi) for ev, fi in zip(sc["events"], fis)]
-        cmds.append("run " + ("T" if seekable_kind(sc["src"]) else "F") + " " + " ".join(toks))
+        _RUNS[run_key(sc)] = (steps, gone, after)
+        toks = [ev_tok(ev, fi, sc.get("pre", 0)) for ev, fi in zip(sc["events"], fis)]
+        cmds.append("run " + ("T" if seekable_kind(sc["src"]) else "F") + f" {sc.get('pre', 0)} " + " ".join(toks))
     gc.unfreeze()
     outs = common.run_model(cmds, name=DRIVER)
     dis = []
@@ -773,11 +873,16 @@ def correspond(ctx):
 # the property on the implementation (no model)
 # ---------------------------------------------------------------------------------
 _RUNS = {}
+SC_KEYS = ("src", "file", "events", "writable", "pre")
+
+
+def run_key(sc):
+    return repr((sc["src"], sc["file"], sc["events"], sc.get("writable", True), sc.get("pre", 0)))
 
 
 def oracle(sc):
     """list of (kind, observed) violations of the property's statement on this scenario"""
-    key = repr((sc["src"], sc["file"], sc["events"], sc.get("writable", True)))
+    key = run_key(sc)
     if key in _RUNS:       # what laspy did on this scenario was already recorded during the correspondence pass
         steps, gone, after = _RUNS[key]
     else:
@@ -800,8 +905,10 @@ def oracle(sc):
         ev = sc["events"][i]
         if ev[0] == "O" and ev[1] == "r" and st["res"] == "ok" and st.get("pos_checked") and st["pos"] is not None:
             if st["pos"] != st["offset_expected"]:
-                out.append((f"position after open r read_evlrs={ev[3]} evlrs={sc['file'][3] > 0}",
-                            f"caller's stream at {st['pos']}, offset_to_point_data is {st['offset_expected']}"))
+                b = st.get("base") or 0
+                out.append((f"position after open r read_evlrs={ev[3]} evlrs={sc['file'][3] > 0} content at byte {'0' if b == 0 else '>0'} of the stream",
+                            f"the stream was handed over at {b}; after open it stands at {st['pos']}, the first point record is at "
+                            f"{st['offset_expected']} (offset_to_point_data {st['offset_expected'] - b})"))
         if "first_points" in st and st["res"] == "ok" and st["first_points"] != st["first_points_expected"]:
             out.append((f"first read_points after open does not return the first records (read_evlrs={st.get('re')})",
                         f"got {len(st['first_points'])} bytes, expected {len(st['first_points_expected'])} bytes equal to the file's"))
@@ -823,7 +930,7 @@ def search(ctx, seeds):
     gc.collect()
     gc.freeze()
     for sc in cand:
-        sc = {k: v for k, v in sc.items() if k in ("src", "file", "events", "writable")}
+        sc = {k: v for k, v in sc.items() if k in SC_KEYS}
         try:
             bad = oracle(sc)
         except Exception as ex:  # the scenario itself could not be run: report it, it is not a verdict on the property
@@ -877,7 +984,7 @@ def replay(ctx, data):
     if not inp or "events" not in inp:
         print("nothing to replay")
         return 0
-    sc = {k: v for k, v in inp.items() if k in ("src", "file", "events", "writable")}
+    sc = {k: v for k, v in inp.items() if k in SC_KEYS}
     bad = oracle(sc)
     shutil.rmtree(SCRATCH, ignore_errors=True)
     for kind, observed in bad:
